@@ -300,6 +300,11 @@ pub struct SlaveCfg {
     /// those that fit SD1 / SD3: legal on the wire, never produced by profirust's own serialiser.
     #[serde(default)]
     pub sd2_always: bool,
+    /// Bits OR-ed into the first two status bytes of every diagnostics reply: bits a slave may
+    /// report that say nothing about its readiness (Master_Lock, Invalid_Slave_Response,
+    /// Station_Non_Existent, Deactivated, the reserved bit).
+    #[serde(default)]
+    pub odd_status: (u8, u8),
 }
 
 #[derive(Serialize, Deserialize, Clone, Debug)]
